@@ -75,6 +75,7 @@ fn main() {
         "tcp-frame" => runloop::run_tcp_frame(&args),
         "irq-replay" => stepped::run_irq_replay(&args),
         "acc-cases" => stepped::run_acc_cases(&args),
+        "handler-cases" => stepped::run_handler_cases(&args),
         "callret" => stepped::run_callret(&args),
         "bus-scan" => bus::run_scan(&args),
         "bus-history" => bus::run_bus_history(&args),
